@@ -106,11 +106,18 @@ func runReplSession(c *Case) Verdict {
 	}
 	pattern := func(ks []string) string { return strings.Join(ks, ",") }
 	var want, have []string
-	for _, o := range c.Outs {
-		want = append(want, o.K)
-	}
 	for _, l := range got {
 		have = append(have, kindOf(l))
+	}
+	for i, o := range c.Outs {
+		k := o.K
+		// a host error of an unnamed class (a reflect panic inside a builtin) surfaces as an error object or as a
+		// thrown message: either is an error line
+		if k == "err" && strings.HasPrefix(o.V.S, "eval:") && !exactErrClasses[strings.TrimPrefix(o.V.S, "eval:")] &&
+			i < len(have) && have[i] == "thr" {
+			k = "thr"
+		}
+		want = append(want, k)
 	}
 	v.Obs = map[string]interface{}{"stdout": got}
 	if pattern(want) != pattern(have) {
@@ -131,7 +138,7 @@ func runReplSession(c *Case) Verdict {
 		return v
 	}
 	for i, o := range c.Outs {
-		if o.K == "err" || !isDataNode(o.V) {
+		if o.K == "err" || !isDataNode(o.V) || want[i] != o.K {
 			continue
 		}
 		text := got[i]
